@@ -279,6 +279,17 @@ func (c05) Cases(tier string, seed uint64) []fw.Case {
 			add("tower-open", []byte(s2), nil, false)
 		}
 	}
+	// (e2) every truncation of lexemes with internal structure (escapes, numbers, comments,
+	// multi-character operators), alone and inside a statement
+	lexemes := []string{`"\x41"`, `"\u00e9"`, `"\U0001F600"`, `"\101"`, `"\n\t\\"`, `'\x7f'`, `"a\x4"`, `1.5`, `1_000.000_1`, `12f`, `/* c */`, `// c`, `**=`, `<<=`, `>>=`, `..=`, `~>`, `->`, `=>`, `$Single`, `@anno`, `#[a]`}
+	for _, lx := range lexemes {
+		for i := 0; i <= len(lx); i++ {
+			add("trunc", []byte(lx[:i]), nil, true)
+			add("trunc", []byte("fn main() { let x = "+lx[:i]), nil, true)
+			add("trunc", []byte("fn main() { let x = "+lx[:i]+"; }"), nil, false)
+			add("trunc", []byte("import a from b; type T = int; let g = "+lx[:i]), nil, false)
+		}
+	}
 	// (f) semantic oddities
 	for i, o := range c05Oddities {
 		_ = i
